@@ -143,7 +143,8 @@ class MixDriver:
             if not groups or rng.random() > self.p_assign:
                 continue
             n_here = self.per_pool if self.per_pool else rng.choice([1, 1, 2, 3])
-            budget_c, budget_r = w.free_cpu[k], w.free_ram[k]
+            budget_c = w.free_cpu[k] - sum(a["cpu"] for a in step["asg"] if a["pool"] == k)
+            budget_r = w.free_ram[k] - (0 if w.overcommit else sum(a["ram"] for a in step["asg"] if a["pool"] == k))
             for _ in range(n_here):
                 cand = [g for g in groups if g[0] not in used]
                 if not cand or budget_c <= 0 or (budget_r <= 0 and not w.overcommit):
@@ -179,6 +180,26 @@ class MixDriver:
                 budget_c -= cpu
                 if not w.overcommit:
                     budget_r -= ram
+                if rng.random() < self.p_unready * 0.5 and not self.fixed_size:
+                    # a family split over two containers of one batch: the child of an operator that is only being
+                    # started now goes into a container of its own (listed after its parent's) - it would run next
+                    # to its unfinished parent, so the start has to be refused
+                    inb = set(ops)
+                    kids = [(pi, oi) for oi in range(len(w.specs[pi]["ops"]))
+                            if (pi, oi) not in inb and w.mstate[(pi, oi)] in ASSIGNABLE
+                            and any((pi, q) in inb for q in w.specs[pi]["ops"][oi]["parents"])
+                            and all((pi, q) in inb or w.mstate[(pi, q)] == "completed" for q in w.specs[pi]["ops"][oi]["parents"])]
+                    k2 = k if (rng.random() < 0.7 or w.npools == 1) else rng.choice([x for x in range(w.npools) if x != k])
+                    c2 = budget_c if k2 == k else w.free_cpu[k2] - sum(a["cpu"] for a in step["asg"] if a["pool"] == k2)
+                    r2 = budget_r if k2 == k else w.free_ram[k2] - sum(a["ram"] for a in step["asg"] if a["pool"] == k2)
+                    if kids and c2 >= 1 and (r2 > 0.5 or w.overcommit):
+                        ram2 = min(r2, 1.0) if not w.overcommit else 1.0
+                        step["asg"].append({"pool": k2, "cpu": 1, "ram": ram2, "ops": [list(rng.choice(kids))]})
+                        step["_split_family"] = "same-pool" if k2 == k else "other-pool"
+                        if k2 == k:
+                            budget_c -= 1
+                            if not w.overcommit:
+                                budget_r -= ram2
         if bad_kind in ("oversell-cpu", "oversell-ram") and step["asg"]:
             a = rng.choice(step["asg"])
             k = a["pool"]
